@@ -9,7 +9,10 @@ PROP_MODS = ["ODataVerif.Tie.Orm", "ODataVerif.Tie.SaFunctions"] + [m for m in (
 FILTERS = ["a gt 0", "a eq 2 or s eq 'a'", "o/n eq 5", "o/n eq 5 or a eq 2", "o/n eq null", "not (o/name eq 'x')", "w/o/label eq 'l'", "o/name eq 'x' and w/o/label eq 'l'",
            "kids/any(k: k/x eq 2)", "kids/all(k: k/x eq 2)", "tags/any()", "o/n eq 5 and kids/any()", "not (kids/any()) or o/n lt 0", "o/ps/any(q: q/a gt 0)", "s ne null and o/name ne null",
            # through a foreign key that references a natural key: the needed join cannot be replaced by the local column
-           "dept/id eq 2", "dept/id eq 10 or a eq 2", "not (dept/id eq 2)", "dept/number eq 10 and dept/id eq 2", "dept/id eq null"]
+           "dept/id eq 2", "dept/id eq 10 or a eq 2", "not (dept/id eq 2)", "dept/number eq 10 and dept/id eq 2", "dept/id eq null",
+           # null tests, `or` and `not` as OPERANDS of a comparison with true / false (the parents without a related row decide the result)
+           "(o/name eq null) eq true", "true eq (o/name eq null)", "(o/name ne null) eq false", "(o/n eq 5 or a eq 2) eq true", "(not (o/name eq 'x')) eq true",
+           "(o/n eq null) ne false", "((o/name eq null) eq true) and a ge 0"]
 
 def sat_ids(db, filters):
     D = rc.enc_db(db)
@@ -18,6 +21,8 @@ def sat_ids(db, filters):
     outs = driver.run_batch([driver.req("releval", "p", enc(n), D) for t, n in trees])
     res = {}
     for (t, n), o in zip(trees, outs):
+        if o in ("noelab", "bad-db", "not-expr", "bad-arg"):
+            raise RuntimeError(f"C15 harness: the reference semantics does not elaborate the filter {t!r} ({o}); every filter of this check must be inside the relational grammar")
         cells = o.split(" ")
         res[t] = ({i for i, c in zip(ids, cells) if c.lstrip("x") == "T"}, {i for i, c in zip(ids, cells) if c.startswith("x")})
     return res
